@@ -227,7 +227,7 @@ namespace Givaro {
             _domain.add(cste, cste, _domain.one);
             _domain.mul(P[(size_t)i], Q[(size_t)i+1], cste);
         }
-        return P;
+        return setdegree(P);
     }
 
     template <class Domain>
